@@ -416,4 +416,86 @@ example : fragsWFb exFd = true := by decide +kernel
 example : ((phaseA (compat false) false exMeta exFd).map fun r => r.1.atoms.map fun a => (a.key, a.fragid)) =
     .ok [(0, [0]), (1, [0, 1]), (3, [1])] := by decide +kernel
 
+/-! ### squashing keeps the bonds between existing atoms -/
+
+theorem moveStep_ends (keep rem : Key) (K : List Key) (hkeep : keep ∈ K) (m : Mol) (e : Edge)
+    (hm : ∀ x ∈ m.edges, x.a ∈ K ∧ x.b ∈ K)
+    (he : (if e.a == rem then e.b else e.a) ≠ rem → (if e.a == rem then e.b else e.a) ∈ K) :
+    ∀ x ∈ (moveStep keep rem m e).edges, x.a ∈ K ∧ x.b ∈ K := by
+  unfold moveStep
+  dsimp only
+  generalize (if e.a == rem then e.b else e.a) = w at he ⊢
+  by_cases h1 : (w == keep || w == rem) = true
+  · rw [if_pos h1]; exact hm
+  · rw [if_neg h1]
+    by_cases h2 : m.hasEdge keep w = true
+    · rw [if_pos h2]; exact hm
+    · rw [if_neg h2]
+      intro x hx
+      rcases List.mem_append.mp hx with h | h
+      · exact hm x h
+      · simp only [List.mem_singleton] at h
+        rw [h]
+        simp only [Bool.or_eq_true, beq_iff_eq, not_or] at h1
+        exact ⟨hkeep, he h1.2⟩
+
+theorem contract_closed (m : Mol) (keep rem : Key) (hc : Closed m) (hk : keep ∈ m.keys) (hne : keep ≠ rem) :
+    Closed (contract m keep rem) := by
+  intro x hx
+  rw [contract_keys]
+  have hK : keep ∈ m.keys.filter (· != rem) := List.mem_filter.mpr ⟨hk, by simpa using hne⟩
+  have hmoved : ∀ (incident : List Edge) (rest : Mol), (∀ e ∈ incident, e ∈ m.edges) →
+      (∀ y ∈ rest.edges, y.a ∈ m.keys.filter (· != rem) ∧ y.b ∈ m.keys.filter (· != rem)) →
+      ∀ y ∈ (incident.foldl (moveStep keep rem) rest).edges, y.a ∈ m.keys.filter (· != rem) ∧ y.b ∈ m.keys.filter (· != rem) := by
+    intro incident
+    induction incident with
+    | nil => intro rest _ h; exact h
+    | cons e es ih =>
+      intro rest hin hrest
+      simp only [List.foldl_cons]
+      apply ih _ (fun y hy => hin y (by simp [hy]))
+      apply moveStep_ends keep rem _ hK rest e hrest
+      intro hw
+      have hem := hc e (hin e (by simp))
+      apply List.mem_filter.mpr
+      refine ⟨?_, by simpa using hw⟩
+      split
+      · exact hem.2
+      · exact hem.1
+  have hrest : ∀ y ∈ (m.edges.filter fun e => !(e.a == rem || e.b == rem)),
+      y.a ∈ m.keys.filter (· != rem) ∧ y.b ∈ m.keys.filter (· != rem) := by
+    intro y hy
+    obtain ⟨hy1, hy2⟩ := List.mem_filter.mp hy
+    simp only [Bool.not_eq_true', Bool.or_eq_false_iff, beq_eq_false_iff_ne, ne_eq] at hy2
+    exact ⟨List.mem_filter.mpr ⟨(hc y hy1).1, by simpa using hy2.1⟩, List.mem_filter.mpr ⟨(hc y hy1).2, by simpa using hy2.2⟩⟩
+  unfold contract at hx
+  cases hr : m.atom? rem with
+  | none =>
+    rw [hr] at hx
+    exact hmoved _ _ (fun e he => (List.mem_filter.mp he).1) hrest x hx
+  | some r =>
+    rw [hr] at hx
+    rw [updAtom_edges] at hx
+    exact hmoved _ _ (fun e he => (List.mem_filter.mp he).1) hrest x hx
+
+/-- the loop of `squash_atoms` keeps every bond between existing atoms -/
+theorem squash_closed (mol : Mol) (hnd : mol.keys.Nodup) (hc : Closed mol) : Closed (squash mol) := by
+  rw [squash_eq]
+  have : ∀ (es : List Edge) (acc : Mol × List (Key × Key)), SInv mol acc → Closed acc.1 →
+      (∀ e ∈ es, e.a ∈ mol.keys ∧ e.b ∈ mol.keys) → Closed (es.foldl sqStep acc).1 := by
+    intro es
+    induction es with
+    | nil => intro acc _ h _; exact h
+    | cons e es ih =>
+      intro acc inv hcl hes
+      simp only [List.foldl_cons]
+      have he := hes e (by simp)
+      apply ih _ (sinv_step inv e he.1 he.2) _ (fun x hx => hes x (by simp [hx]))
+      unfold sqStep; dsimp only
+      split
+      · exact hcl
+      · rename_i hne
+        exact contract_closed acc.1 _ _ hcl (resolve_inK inv e.a he.1) (by simpa using hne)
+  exact this _ _ (sinv_init mol hnd) hc (shared_ends mol hc)
+
 end CGV.C10
